@@ -541,3 +541,32 @@ def diff_tie(ctx, name, exe, args, runner, cases, oracle=None, nontrivial=None, 
                 break
     ctx.ties.append({"name": name, "cases": len(cases), "disagreements": nmis, "search_cases": searched})
     return nmis
+
+
+def oracle_tie(ctx, name, exe, args, cases, oracle, nontrivial=None, bucket=None, timeout=900, describe=None, env=None):
+    """Run cases on the implementation only and evaluate the property oracle (exploration / failing-input search;
+    never stands in for a theorem). Handles drivers that exit after a HANG line."""
+    impl = []
+    guard = 0
+    rc = 0
+    while len(impl) < len(cases) and guard < 300:
+        guard += 1
+        rc, more, err = ctx.run_driver(exe, args, cases[len(impl):], timeout=timeout, env=env)
+        impl += more
+        if len(impl) < len(cases) and (not more or not more[-1].endswith("HANG")):
+            impl.append("CRASH rc=%s %s" % (rc, err[-200:].replace("\n", " ")))
+    bad = 0
+    for i, c in enumerate(cases):
+        toks = impl[i].split()
+        ctx.count((name, c), nontrivial(c, toks) if nontrivial else True, bucket(c) if bucket else None)
+        if i < 2:
+            ctx.sample({"oracle-run": name, "case": describe(c) if describe else c, "impl": impl[i][:300]})
+        viol = oracle(c, toks)
+        if viol:
+            bad += 1
+            if bad <= 3:
+                ctx.add(Finding("violation", viol[0], "%s: %s" % (name, viol[1]),
+                                {"tie": name, "case": c, "case_text": describe(c) if describe else None, "impl": impl[i][:2000],
+                                 "driver": os.path.basename(exe), "args": [str(a) for a in args]}))
+    ctx.ties.append({"name": name + " (oracle only)", "cases": len(cases), "disagreements": bad})
+    return bad
